@@ -662,6 +662,15 @@ func (o *Obligation) instantiate() (Term, []string) {
 			goal = strings.ReplaceAll(goal, q.Text, "(or "+strings.Join(alts, " ")+")")
 		}
 	}
+	if o.rec != nil {
+		seenF := map[Term]bool{}
+		for _, f := range o.rec.Facts {
+			if !seenF[f] {
+				seenF[f] = true
+				extra = append(extra, "(assert "+f+")")
+			}
+		}
+	}
 	// Instances of the universals of one hypothesis F are put into ONE copy of F: every universal is replaced by
 	// (and universal instances...), which is equivalent to it whatever its position. (One copy of F per instance
 	// made queries of tens of megabytes for hypotheses with several quantifiers.)
